@@ -13,18 +13,23 @@ for un in sys.argv[1:]:
         print("note:", str(e)[:300])
     hashes = {}
     counts = {}
+    local_names = {}
     for line in open(os.path.join(build.BUILD, un + ".xlog")):
         p = line.rstrip("\n").split("\t")
         if p[0] == "LOOP":
             hashes[(p[2], p[3])] = p[4]
             counts[p[2]] = max(counts.get(p[2], 0), int(p[3]))
+        if p[0] == "LOCALS":
+            local_names[p[2]] = p[3] if len(p) > 3 else ""
     for c in u["contracts"]:
         path = os.path.join(VERIF, "contracts", c)
         out = []; f = None; changed = False
         lines = open(path).read().split("\n")
         seen_loops = set()
         for idx, line in enumerate(lines):
-            if line.startswith("#loops "):
+            if line.startswith("#loops ") and f in counts:
+                continue
+            if line.startswith("#locals ") and local_names.get(f):
                 continue
             if line.startswith("#fn "):
                 f = line[4:].strip().replace("::", "__")
@@ -34,6 +39,10 @@ for un in sys.argv[1:]:
                     new = "#loops %d" % counts[f]
                     out.append(new)
                     if not (idx + 1 < len(lines) and lines[idx + 1] == new): changed = True
+                if local_names.get(f):
+                    new = "#locals %s" % local_names[f]
+                    out.append(new)
+                    if new not in lines[idx + 1: idx + 3]: changed = True
                 continue
             m = re.match(r"^#(inv|dec|pre|post|bs|be) (\d+)(.*)$", line)
             if m and (f, m.group(2)) in hashes:
